@@ -1790,6 +1790,16 @@ pub fn vhash(v: &Val) -> i64 {
         Val::Some(x) => (vhash(x) * 13 + 2) % HP,
     }
 }
+/// as `vhash`, a list hashed as a bag (commutative): Canon.vhash_bag
+pub fn vhash_bag(v: &Val) -> i64 {
+    match v {
+        Val::Int(z) => (z * 7 + 1).rem_euclid(HP),
+        Val::Pair(a, b) => (vhash_bag(a) * 31 + vhash_bag(b) * 17 + 3) % HP,
+        Val::List(l) => l.iter().fold(5i64, |acc, x| (acc + vhash_bag(x) * 131) % HP),
+        Val::None => 11,
+        Val::Some(x) => (vhash_bag(x) * 13 + 2) % HP,
+    }
+}
 pub fn leaves(v: &Val) -> i64 {
     match v {
         Val::Int(_) => 1,
@@ -1811,6 +1821,7 @@ pub fn summary(rows: &[Val]) -> Vec<i64> {
         rows.iter().map(leaves).sum(),
         rows.iter().fold(0i64, |a, r| (a + vhash(r)) % HP),
         rows.iter().fold(0i64, |a, r| (a * 1_000_003 + vhash(r)) % HP),
+        rows.iter().fold(0i64, |a, r| (a + vhash_bag(r)) % HP),
     ]
 }
 /// replace the rows of an ["ok", rows] outcome by their summary
